@@ -84,6 +84,20 @@ pub proof fn lemma_any_interleaving(e0: Ex, ds: Seq<Delivery>, h0: nat, r0: nat)
         lemma_step_preserves_inv(run(e0, ds.drop_last(), h0, r0), e0, ds.last(), h0, r0);
     }
 }
+
+/// non-vacuity witness: a soft block at the next height is executed, its duplicate is not
+pub proof fn witness_soft_once()
+{
+    let e0 = Ex { firm: 0, soft: 0, executed: Seq::empty() };
+    let d = Delivery::Soft { height: 11, ok: true };
+    let ds1 = seq![d]; let ds2 = seq![d, d];
+    assert(ds1.drop_last() =~= Seq::<Delivery>::empty());
+    assert(run(e0, ds1.drop_last(), 10, 0) == e0);
+    assert(next_soft(e0, 10, 0) == 11);
+    assert(run(e0, ds1, 10, 0).executed =~= seq![11nat]);
+    assert(ds2.drop_last() =~= ds1);
+    assert(run(e0, ds2, 10, 0).executed =~= seq![11nat]);
+}
 '''
 
 UNIT = dict(
